@@ -50,7 +50,7 @@ OBLIGATIONS += [
        defs=["-DNMAX=%d" % max(n, 1), "-DNFIX=%d" % n], bounds="data of %d bytes, all contents, all cut points" % n, tier="thorough", timeout=3000, mem_gb=24)
     for n in (0, 1, 2, 3, 4, 5, 6, 7, 12, 24, 47, 48, 49)
 ] + [
-    tx("base64_block", "h_base64_block", "base64 block codec: decode_block(encode_block(f)) = f, alphabet and padding placement", bounds="blocks of 1..9 bytes, all contents"),
+    tx("base64_block", "h_base64_block", "base64 block codec: decode_block(encode_block(f)) = f, alphabet and padding placement", bounds="blocks of 1..9 bytes, all contents", tier="thorough", timeout=1200),
     tx("hex", "h_hex", "hex decoder: accepts exactly even-length hex digit strings, value correct, writes inlen/2 bytes", bounds="inputs of 0..6 characters"),
     tx("pem_capacity", "h_pem_capacity", "pem_read never writes more than maxlen bytes whatever the lines contain", defs=["-DPEM_LINES=3", "-DPEM_LINELEN=8", "-DPEM_STUB_B64"], units=["pem.c"], mem_stubs=True,
        bounds="capacity 1..200 bytes, 3 text lines, each decoding to 0..96 arbitrary bytes (contract model of the base64 decoder), final block 0..48",
